@@ -67,7 +67,7 @@ func (p *P0x9208) Parse(jtMsg *jt808.JTMessage) error {
 	p.ServerAddr = string(body[1 : 1+k])
 	p.TcpPort = binary.BigEndian.Uint16(body[1+k : 1+k+2])
 	p.UdpPort = binary.BigEndian.Uint16(body[3+k : 3+k+2])
-	p.P9208AlarmSign.parse(body[5+k : 5+k+16])
+	p.P9208AlarmSign.parse(body[5+k : 5+k+p.P9208AlarmSign.getAlarmSignLen()])
 	p.AlarmID = string(bytes.Trim(body[sign+k-32:sign+k], "\x00"))
 	p.Reserve = body[sign+k:]
 	return nil
@@ -106,6 +106,11 @@ func (p *P0x9208) String() string {
 
 func (p *P9208AlarmSign) parse(data []byte) {
 	idLen := p.getTerminalIDLen()
+	if len(data) < idLen+8 {
+		// 数据长度不足以解析当前主动安全类型的报警标识 清空避免保留上一次的内容
+		*p = P9208AlarmSign{ActiveSafetyType: p.ActiveSafetyType}
+		return
+	}
 	p.TerminalID = string(bytes.Trim(data[:idLen], "\x00"))
 	p.Time = utils.BCD2Time(data[idLen : idLen+6])
 	p.SerialNumber = data[idLen+6]
